@@ -57,8 +57,9 @@ structure Inv (c : Cfg) (s : Sys) : Prop where
 /-- the invariant with thread `t` taken out: used while `t` is in the middle of a step.
     `hold` says whether `t` will hold the write lock afterwards, `P i o` excuses a zero count of
     entry `(i, o)` (it is the entry `t` is about to remove). -/
-structure InvBut (c : Cfg) (s : Sys) (t : Tid) (hold : Bool) (P : Ino → ObjId → Prop) : Prop where
-  sinv : SInv c s.store s.incs s.decs
+structure InvBut (c : Cfg) (s : Sys) (t : Tid) (hold : Bool) (P : Ino → ObjId → Prop)
+    (incs' : HostId → Nat) : Prop where
+  sinv : SInv c s.store incs' s.decs
   lockA : ∀ t', t' ≠ t → (s.lock = .w t' ↔ holds (s.threads t').pc = true)
   lockT : s.lock = .w t ↔ hold = true
   pos : ∀ i o, s.store.data i = some o → s.store.cells o = 0 →
@@ -180,8 +181,8 @@ theorem inv_setPc {c : Cfg} {s : Sys} (h : Inv c s) (t : Tid) (pc' : PC)
     · exact h.resOk t' f i
 
 /-- the request of thread `t` returns -/
-theorem inv_finish {c : Cfg} {s : Sys} {t : Tid} (h : InvBut c s t false (fun _ _ => False))
-    (res : Option (HostId × Ino))
+theorem inv_finish {c : Cfg} {s : Sys} {t : Tid} (res : Option (HostId × Ino))
+    (h : InvBut c s t false (fun _ _ => False) (bump s.incs res))
     (hres : ∀ f i, res = some (f, i) → NumOk c s.store f i) :
     Inv c (finish s t res) := by
   have hadv := advance_plain (pushRes (s.threads t) res)
@@ -256,7 +257,7 @@ theorem inv_finish {c : Cfg} {s : Sys} {t : Tid} (h : InvBut c s t false (fun _ 
 
 /-- thread `t` moves to `pc'` after the rest of the state changed -/
 theorem inv_setPcBut {c : Cfg} {s : Sys} {t : Tid} {pc' : PC} {P : Ino → ObjId → Prop}
-    (h : InvBut c s t (holds pc') P)
+    (h : InvBut c s t (holds pc') P s.incs)
     (hP : ∀ i o, P i o → ∃ n, pc' = .F3 i n o)
     (h1 : ∀ f o, pc' = .L1 f o → o < s.store.nobj ∧ s.store.objHost o = f)
     (h2 : ∀ f o k, pc' = .L2 f o k → o < s.store.nobj ∧ s.store.objHost o = f ∧ 0 < k)
@@ -306,7 +307,7 @@ theorem inv_setPcBut {c : Cfg} {s : Sys} {t : Tid} {pc' : PC} {P : Ino → ObjId
 
 /-- forgetting about thread `t` -/
 theorem but_of_inv {c : Cfg} {s : Sys} (h : Inv c s) (t : Tid) :
-    InvBut c s t (holds (s.threads t).pc) (fun i o => ∃ n, (s.threads t).pc = .F3 i n o) := by
+    InvBut c s t (holds (s.threads t).pc) (fun i o => ∃ n, (s.threads t).pc = .F3 i n o) s.incs := by
   constructor
   · exact h.sinv
   · intro t' _; exact h.lockA t'
